@@ -1,7 +1,8 @@
 //! C12 conformance harness: the real `humphrey_ws::async_app::AsyncWebsocketApp` driven by reference
 //! WebSocket clients (RFC 6455: handshake, masked frames, strict parsing of what the server sends).
 //!
-//!   wsasync random <runs> <first-run-id> [maxclients]   free-running randomised scenarios (method C)
+//!   wsasync random <runs> <first-run-id> [maxclients] [chatty]   free-running randomised scenarios (method C);
+//!       the first `chatty` runs have a short heartbeat and one client that keeps sending for 2.5 timeout periods
 //!       stdout: ndjson event log for Trace_WsAsyncApp.tla (one `Reset` record per run) and a final
 //!       {"summary":..} line
 //!   wsasync replay <settle-ms>                          lock-step replay of TLC behaviours (method D)
@@ -132,8 +133,46 @@ fn kind_name(k: u8) -> &'static str {
 // ------------------------------------------------------------------------------------------------
 // shared run context
 // ------------------------------------------------------------------------------------------------
+/// longest gap between consecutive beats of a thread, remembered per time slot (wall clock, us since the
+/// start of the run).  Used only to excuse heartbeat timeouts that a stalled loop / reader explains.
+#[derive(Default, Clone)]
+struct GapWin {
+    last_us: u64,
+    slots: [(u64, u64); 16],
+}
+
+const SLOT_US: u64 = 50_000;
+
+impl GapWin {
+    fn beat(&mut self, now_us: u64) {
+        let gap = now_us.saturating_sub(self.last_us);
+        self.last_us = now_us;
+        let id = now_us / SLOT_US;
+        let i = (id % 16) as usize;
+        if self.slots[i].0 != id {
+            self.slots[i] = (id, 0);
+        }
+        if gap > self.slots[i].1 {
+            self.slots[i].1 = gap;
+        }
+    }
+    /// longest gap that ended within the last `window_us`, or is still open now
+    fn longest(&self, now_us: u64, window_us: u64) -> u64 {
+        let from = now_us.saturating_sub(window_us) / SLOT_US;
+        let mut m = now_us.saturating_sub(self.last_us);
+        for (id, g) in self.slots.iter() {
+            if *id >= from && *g > m {
+                m = *g;
+            }
+        }
+        m
+    }
+}
+
 #[derive(Default)]
 struct St {
+    loop_gaps: GapWin,
+    client_gaps: [GapWin; MAXC + 1],
     events: Vec<Rec>,
     ports: HashMap<u16, i64>,
     up_tags: HashMap<i64, (i64, i64)>,
@@ -165,6 +204,9 @@ struct St {
 struct Ctx {
     st: Mutex<St>,
     cv: Condvar,
+    t0: Instant,
+    /// heartbeat (interval, timeout) in us, (0, 0) = off
+    hb_us: (u64, u64),
     hsleep_us: usize,
     /// what the handlers send: for C, M, D a list of "uni" / "bc"
     policy: [Vec<String>; 3],
@@ -174,9 +216,25 @@ struct Ctx {
 static CUR: Mutex<Option<Arc<Ctx>>> = Mutex::new(None);
 
 impl Ctx {
-    fn new(lockstep: bool, policy: [Vec<String>; 3], hsleep_us: usize, big: bool) -> Arc<Ctx> {
+    fn new(lockstep: bool, policy: [Vec<String>; 3], hsleep_us: usize, big: bool, hb_us: (u64, u64)) -> Arc<Ctx> {
         let st = St { lockstep, ..Default::default() };
-        Arc::new(Ctx { st: Mutex::new(st), cv: Condvar::new(), hsleep_us, policy, big })
+        Arc::new(Ctx { st: Mutex::new(st), cv: Condvar::new(), t0: Instant::now(), hb_us, hsleep_us, policy, big })
+    }
+    fn now_us(&self) -> u64 {
+        self.t0.elapsed().as_micros() as u64
+    }
+    /// Was a Pong of client c plausibly late?  With the longest loop gap g and the longest reader gap r in
+    /// the last three timeout periods, pings leave at most interval + g apart and a Pong is read at most
+    /// r + g later: a responsive client cannot time out while interval + 2g + r < timeout.
+    fn timeout_excused(&self, g: &St, c: i64) -> bool {
+        let (i, t) = self.hb_us;
+        if t == 0 || c < 1 || c as usize > MAXC {
+            return true;
+        }
+        let now = self.now_us();
+        let lg = g.loop_gaps.longest(now, 3 * t);
+        let rg = g.client_gaps[c as usize].longest(now, 3 * t);
+        4 * (2 * lg + rg) >= 3 * t.saturating_sub(i)
     }
     fn lock(&self) -> MutexGuard<'_, St> {
         self.st.lock().unwrap_or_else(|e| e.into_inner())
@@ -209,7 +267,9 @@ impl Ctx {
 
     // ---- hook call sites of the loop thread ----------------------------------------------------
     fn loop_iter(&self) {
+        let now = self.now_us();
         let mut g = self.lock();
+        g.loop_gaps.beat(now);
         if !g.lockstep {
             return;
         }
@@ -254,7 +314,7 @@ impl Ctx {
                 let c = Ctx::client_of(&g, a);
                 let mut r = rec(name);
                 r.c = c;
-                r.n = b;
+                r.n = if name == "Loop_Timeout" { self.timeout_excused(&g, c) as i64 } else { b };
                 g.events.push(r);
                 if name != "Loop_Remove" {
                     g.n_dispatch += 1;
@@ -460,14 +520,16 @@ fn frame_bytes(fin: bool, opcode: u8, payload: &[u8], key: [u8; 4]) -> Vec<u8> {
     v
 }
 
-fn read_exact_or_eof(s: &mut TcpStream, buf: &mut [u8], stop: &AtomicBool) -> Result<bool, String> {
+fn read_exact_or_eof(s: &mut TcpStream, buf: &mut [u8], stop: &AtomicBool, beat: &dyn Fn()) -> Result<bool, String> {
     // Ok(true) = filled, Ok(false) = clean EOF before the first byte / stop requested
     let mut got = 0;
     while got < buf.len() {
         if stop.load(Ordering::SeqCst) {
             return Ok(false);
         }
-        match s.read(&mut buf[got..]) {
+        let r = s.read(&mut buf[got..]);
+        beat();
+        match r {
             Ok(0) => return if got == 0 { Ok(false) } else { Err("eof inside a frame".into()) },
             Ok(n) => got += n,
             Err(e) if e.kind() == std::io::ErrorKind::WouldBlock || e.kind() == std::io::ErrorKind::TimedOut => continue,
@@ -480,6 +542,14 @@ fn read_exact_or_eof(s: &mut TcpStream, buf: &mut [u8], stop: &AtomicBool) -> Re
 
 /// strict parser of server -> client frames; logs C_Rx for data frames, answers Pings
 fn reader_loop(ctx: Arc<Ctx>, id: i64, mut s: TcpStream, wr: Arc<Mutex<Option<TcpStream>>>, stop: Arc<AtomicBool>, quiet: Arc<AtomicBool>) {
+    let beat = || {
+        let now = ctx.now_us();
+        let mut g = ctx.lock();
+        if (id as usize) <= MAXC {
+            g.client_gaps[id as usize].beat(now);
+        }
+    };
+    beat();
     let bad = |why: &str| {
         let mut r = rec("C_RxBad");
         r.c = id;
@@ -488,7 +558,7 @@ fn reader_loop(ctx: Arc<Ctx>, id: i64, mut s: TcpStream, wr: Arc<Mutex<Option<Tc
     };
     loop {
         let mut h = [0u8; 2];
-        match read_exact_or_eof(&mut s, &mut h, &stop) {
+        match read_exact_or_eof(&mut s, &mut h, &stop, &beat) {
             Ok(true) => {}
             // EOF or a reset connection, also inside a frame (a reset truncates what was in flight): the
             // stream simply ends here; whether everything had to arrive is decided by the trace spec
@@ -505,13 +575,13 @@ fn reader_loop(ctx: Arc<Ctx>, id: i64, mut s: TcpStream, wr: Arc<Mutex<Option<Tc
         }
         if len == 126 {
             let mut b = [0u8; 2];
-            if read_exact_or_eof(&mut s, &mut b, &stop) != Ok(true) {
+            if read_exact_or_eof(&mut s, &mut b, &stop, &beat) != Ok(true) {
                 break;
             }
             len = u16::from_be_bytes(b) as u64;
         } else if len == 127 {
             let mut b = [0u8; 8];
-            if read_exact_or_eof(&mut s, &mut b, &stop) != Ok(true) {
+            if read_exact_or_eof(&mut s, &mut b, &stop, &beat) != Ok(true) {
                 break;
             }
             len = u64::from_be_bytes(b);
@@ -521,7 +591,7 @@ fn reader_loop(ctx: Arc<Ctx>, id: i64, mut s: TcpStream, wr: Arc<Mutex<Option<Tc
             break;
         }
         let mut p = vec![0u8; len as usize];
-        if len > 0 && read_exact_or_eof(&mut s, &mut p, &stop) != Ok(true) {
+        if len > 0 && read_exact_or_eof(&mut s, &mut p, &stop, &beat) != Ok(true) {
             break;
         }
         match opcode {
@@ -540,6 +610,9 @@ fn reader_loop(ctx: Arc<Ctx>, id: i64, mut s: TcpStream, wr: Arc<Mutex<Option<Tc
                 // would turn the server's orderly close into a reset)
                 if !quiet.load(Ordering::SeqCst) {
                     if let Some(w) = g.as_mut() {
+                        let mut r = rec("C_Pong");
+                        r.c = id;
+                        ctx.push(r);
                         let _ = w.write_all(&f);
                     }
                 }
@@ -612,7 +685,7 @@ impl Client {
         if !ok_status || !ok_accept {
             return Err(format!("handshake: unexpected answer {:?}", text));
         }
-        s.set_read_timeout(Some(Duration::from_millis(20))).ok();
+        s.set_read_timeout(Some(Duration::from_millis(5))).ok();
         let rd = s.try_clone().map_err(|e| e.to_string())?;
         let wr = Arc::new(Mutex::new(Some(s)));
         let stop = Arc::new(AtomicBool::new(false));
@@ -859,6 +932,8 @@ enum Op {
     Send { frags: usize, pause_us: u64 },
     Burst(usize),
     Ping,
+    /// keep sending: one message every `every_us` for `dur_ms`
+    Chat { dur_ms: u64, every_us: u64 },
 }
 
 #[derive(Clone, Debug)]
@@ -890,25 +965,40 @@ fn emit(events: &[Rec], run: i64) {
     }
 }
 
-fn random_run(run: i64, rng: &mut Rng, maxclients: usize) -> RunOut {
-    let nclients = rng.range(1, maxclients);
-    let workers = *rng.pick(&[1usize, 1, 2, 2, 3, 4, 5, 6, 7, 8]);
-    let poll = match rng.below(4) {
+/// `chatty`: heartbeat on with a short period, client 1 keeps sending across more than two timeout periods
+/// (and answers every ping, like every reference client), the others are quiet: nobody may be reaped.
+fn random_run(run: i64, rng: &mut Rng, maxclients: usize, chatty: bool) -> RunOut {
+    let mut nclients = rng.range(1, maxclients);
+    let mut workers = *rng.pick(&[1usize, 1, 2, 2, 3, 4, 5, 6, 7, 8]);
+    let mut poll = match rng.below(4) {
         0 => None,
         1 => Some(Duration::from_millis(0)),
         _ => Some(Duration::from_micros(rng.range(200, 10_000) as u64)),
     };
-    let hb_on = rng.chance(1, 2);
-    let heartbeat = if hb_on { Some((Duration::from_millis(rng.range(15, 40) as u64), Duration::from_millis(rng.range(250, 500) as u64))) } else { None };
-    let internal = rng.chance(1, 4);
-    let big = rng.chance(1, 6);
+    let mut hb_on = rng.chance(1, 2);
+    let mut heartbeat = if hb_on { Some((Duration::from_millis(rng.range(15, 40) as u64), Duration::from_millis(rng.range(250, 500) as u64))) } else { None };
+    let mut internal = rng.chance(1, 4);
+    let mut big = rng.chance(1, 6);
+    if chatty {
+        nclients = rng.range(2, 3).min(maxclients.max(2));
+        workers = *rng.pick(&[1usize, 2]);
+        poll = Some(Duration::from_millis(rng.range(2, 10) as u64));
+        hb_on = true;
+        heartbeat = Some((Duration::from_millis(60), Duration::from_millis(180)));
+        internal = rng.chance(1, 3);
+        big = false;
+    }
     let pol = |rng: &mut Rng, allow_uni: bool| -> Vec<String> {
         let n = *rng.pick(&[0usize, 1, 1, 1, 2]);
         (0..n).map(|_| if allow_uni && rng.chance(1, 2) { "uni".to_string() } else { "bc".to_string() }).collect()
     };
-    let policy = [pol(rng, true), pol(rng, true), pol(rng, false)];
-    let hsleep_us = *rng.pick(&[0usize, 0, 200, 2000]);
-    let ctx = Ctx::new(false, policy.clone(), hsleep_us, big);
+    let mut policy = [pol(rng, true), pol(rng, true), pol(rng, false)];
+    let mut hsleep_us = *rng.pick(&[0usize, 0, 200, 2000]);
+    if chatty {
+        policy = [vec![], if rng.chance(1, 2) { vec!["uni".to_string()] } else { vec![] }, vec![]];
+        hsleep_us = 0;
+    }
+    let ctx = Ctx::new(false, policy.clone(), hsleep_us, big, heartbeat.map(|(i, t)| (i.as_micros() as u64, t.as_micros() as u64)).unwrap_or((0, 0)));
     {
         let mut r = rec("Reset");
         r.run = run;
@@ -944,7 +1034,14 @@ fn random_run(run: i64, rng: &mut Rng, maxclients: usize) -> RunOut {
             7 => EndOp::VanishRst,
             _ => if hb_on { EndOp::VanishFin } else { EndOp::VanishRst },
         };
-        let late = rng.chance(1, 5);
+        let mut late = rng.chance(1, 5);
+        let (mut ops, mut end) = (ops, end);
+        if chatty {
+            late = false;
+            let span_ms = 180 * 5 / 2;
+            ops = if id == 1 { vec![Op::Chat { dur_ms: span_ms, every_us: rng.range(1000, 2500) as u64 }] } else { vec![Op::Sleep((span_ms + 30) * 1000)] };
+            end = if id == 1 || rng.chance(1, 2) { EndOp::Close } else { EndOp::Stay };
+        }
         plans.push(json!({"c": id, "ops": format!("{:?}", ops), "end": format!("{:?}", end)}));
         let (ctx2, addrs2, failed2, live2) = (ctx.clone(), addrs.clone(), failed.clone(), live.clone());
         let (server_addr, path) = (server.addr, server.path);
@@ -973,6 +1070,13 @@ fn random_run(run: i64, rng: &mut Rng, maxclients: usize) -> RunOut {
                         }
                     }
                     Op::Ping => cl.ping(&ctx2),
+                    Op::Chat { dur_ms, every_us } => {
+                        let t0 = Instant::now();
+                        while t0.elapsed() < Duration::from_millis(dur_ms) {
+                            cl.send(&ctx2, 1, 0, false);
+                            sleep(Duration::from_micros(every_us));
+                        }
+                    }
                 }
             }
             match end {
@@ -1062,13 +1166,13 @@ fn random_run(run: i64, rng: &mut Rng, maxclients: usize) -> RunOut {
     RunOut {
         events,
         info: json!({"run": run, "clients": nclients, "workers": workers, "poll_us": poll.map(|d| d.as_micros() as i64).unwrap_or(-1),
-            "heartbeat": hb_on, "internal_app": internal, "policy": policy, "hsleep_us": hsleep_us, "settled": settled, "early_shutdown": early,
+            "heartbeat": hb_on, "chatty": chatty, "internal_app": internal, "policy": policy, "hsleep_us": hsleep_us, "settled": settled, "early_shutdown": early,
             "returned": returned, "plans": plans, "ext": nx}),
         setup_failed,
     }
 }
 
-fn random_mode(runs: usize, first: i64, maxclients: usize) {
+fn random_mode(runs: usize, first: i64, maxclients: usize, chatty_runs: usize) {
     let mut rng = Rng::new(seed_from_env() ^ (first as u64).wrapping_mul(0x9E37_79B9));
     let mut total = 0usize;
     let mut retried = 0usize;
@@ -1076,7 +1180,7 @@ fn random_mode(runs: usize, first: i64, maxclients: usize) {
     let mut stats: HashMap<String, usize> = HashMap::new();
     let mut run = first;
     while total < runs {
-        let out = random_run(run, &mut rng, maxclients);
+        let out = random_run(run, &mut rng, maxclients, total < chatty_runs);
         if out.setup_failed {
             retried += 1;
             if retried > 10 {
@@ -1174,7 +1278,7 @@ fn replay_one(run: i64, beh: &Value, settle: Duration) -> (Vec<Rec>, Value) {
             x => vec![x.to_string()],
         }
     };
-    let ctx = Ctx::new(true, [reply("C"), reply("M"), reply("D")], 0, false);
+    let ctx = Ctx::new(true, [reply("C"), reply("M"), reply("D")], 0, false, (0, 0));
     {
         let mut r = rec("Reset");
         r.run = run;
@@ -1417,7 +1521,8 @@ fn main() {
             let runs: usize = a.get(2).and_then(|s| s.parse().ok()).unwrap_or(5);
             let first: i64 = a.get(3).and_then(|s| s.parse().ok()).unwrap_or(1);
             let maxc: usize = a.get(4).and_then(|s| s.parse().ok()).unwrap_or(MAXC).min(MAXC).max(1);
-            random_mode(runs, first, maxc)
+            let chatty: usize = a.get(5).and_then(|s| s.parse().ok()).unwrap_or(0);
+            random_mode(runs, first, maxc, chatty)
         }
         Some("replay") => replay_mode(a.get(2).and_then(|s| s.parse().ok()).unwrap_or(3)),
         _ => {
